@@ -68,6 +68,7 @@ fn run_case(line: &str) -> String {
         "route" => s_dns::route(args),
         "dnsdec" => s_dnswire::dec(args),
         "dnsenc" => s_dnswire::enc(args),
+        "dnsrt" => s_dnswire::rt(args),
         "inreply" => s_dnswire::inreply(args),
         "leasedb" => s_leasedb::run(args),
         "ra" => s_radv::run(args),
